@@ -179,6 +179,9 @@ func newV2(t *testing.T, cfg Config, gated bool) *v2run {
 	if err != nil {
 		t.Fatalf("New: %v", err)
 	}
+	for p := range inputs { // the options map is the caller's again once New has returned: it is emptied and never touched again
+		delete(inputs, p)
+	}
 	r.d = d
 	return r
 }
